@@ -33,6 +33,8 @@ type historyCfg struct {
 	shadowP   int
 	// before runs once per process before the generated histories (enumerative parts)
 	before func(t *testing.T, st *Stats)
+	// stats, when set, is used instead of a fresh Stats (the caller flushes it)
+	stats *Stats
 }
 
 // decodedLedger renders a shard with balance entries decoded to (value, frozen, metadata): two ledgers that differ only
@@ -112,8 +114,11 @@ func renderCall(rec *CallRecord) map[string]interface{} {
 }
 
 func runHistories(t *testing.T, cfg historyCfg) {
-	st := NewStats(cfg.prop)
-	defer finish(t, st)
+	st := cfg.stats
+	if st == nil {
+		st = NewStats(cfg.prop)
+		defer finish(t, st)
+	}
 	known := LoadKnown(cfg.prop)
 	props := append([]string{cfg.prop}, cfg.also...)
 	histories := 0
